@@ -52,8 +52,10 @@
 //!    `From<&Uint> for Int / der::Uint / Any` (timeouts; function `der_types` kept, unregistered).
 //!  * num-bigint: `BigUint::from(&x)` 108 s / 5.1 GB at 8 bits (too close to the cap; `bigint_to` kept, unregistered),
 //!    `TryFrom<&BigUint>` 11 GB at 8 bits even for `BigUint::from(u64)` (`bigint_from`, unregistered).
-//!  * serde human-readable (String formatting / parsing), postgres `to_sql` / `from_sql` (not attempted for lack of
-//!    time: `Type` holds an Arc, BytesMut output), ark-ff (feature not enabled in `codecs`).
+//!  * serde human-readable: only a BOUNDED stand-in (`c16_serde_human_*`: eight concrete value/width pairs through a recording
+//!    human-readable Serializer - the exact text handed to `serialize_str` ("0x0" for zero at any width, minimal 0x-prefixed
+//!    lower-case hex otherwise, full-width form for `Bits`) and its `visit_str` round trip; 4-45 s each, 2^64 at 65 bits 226 s);
+//!    postgres `to_sql` / `from_sql` (not attempted: `Type` holds an Arc, BytesMut output), ark-ff (feature not enabled in `codecs`).
 //!  * SCALE compact decoding of the big mode with a byte count other than 4, 8, 16 (see c17).
 use crate::oracle as o;
 use crate::sym::*;
@@ -678,6 +680,55 @@ pub mod mock {
             newtype_struct seq tuple tuple_struct map struct enum identifier ignored_any
         }
     }
+    // human-readable back ends: the serializer records the argument of `serialize_str`, the deserializer hands a str to `visit_str`
+    pub struct RecStr;
+    impl ser::Serializer for RecStr {
+        type Ok = ([u8; W], usize);
+        type Error = E;
+        type SerializeSeq = Imp;
+        type SerializeTuple = Imp;
+        type SerializeTupleStruct = Imp;
+        type SerializeTupleVariant = Imp;
+        type SerializeMap = Imp;
+        type SerializeStruct = Imp;
+        type SerializeStructVariant = Imp;
+        fn is_human_readable(&self) -> bool { true }
+        fn serialize_str(self, v: &str) -> Result<Self::Ok, E> {
+            let v = v.as_bytes();
+            if v.len() > W { return Err(E); }
+            let mut out = [0u8; W];
+            let mut i = 0;
+            while i < v.len() { out[i] = v[i]; i += 1; }
+            Ok((out, v.len()))
+        }
+        refuse!(serialize_bool: bool, serialize_i8: i8, serialize_i16: i16, serialize_i32: i32, serialize_i64: i64,
+                serialize_u8: u8, serialize_u16: u16, serialize_u32: u32, serialize_u64: u64, serialize_f32: f32,
+                serialize_f64: f64, serialize_char: char, serialize_bytes: &[u8], serialize_unit_struct: &'static str);
+        fn serialize_none(self) -> Result<Self::Ok, E> { Err(E) }
+        fn serialize_some<T: ?Sized + ser::Serialize>(self, _: &T) -> Result<Self::Ok, E> { Err(E) }
+        fn serialize_unit(self) -> Result<Self::Ok, E> { Err(E) }
+        fn serialize_unit_variant(self, _: &'static str, _: u32, _: &'static str) -> Result<Self::Ok, E> { Err(E) }
+        fn serialize_newtype_struct<T: ?Sized + ser::Serialize>(self, _: &'static str, _: &T) -> Result<Self::Ok, E> { Err(E) }
+        fn serialize_newtype_variant<T: ?Sized + ser::Serialize>(self, _: &'static str, _: u32, _: &'static str, _: &T) -> Result<Self::Ok, E> { Err(E) }
+        fn serialize_seq(self, _: Option<usize>) -> Result<Imp, E> { Err(E) }
+        fn serialize_tuple(self, _: usize) -> Result<Imp, E> { Err(E) }
+        fn serialize_tuple_struct(self, _: &'static str, _: usize) -> Result<Imp, E> { Err(E) }
+        fn serialize_tuple_variant(self, _: &'static str, _: u32, _: &'static str, _: usize) -> Result<Imp, E> { Err(E) }
+        fn serialize_map(self, _: Option<usize>) -> Result<Imp, E> { Err(E) }
+        fn serialize_struct(self, _: &'static str, _: usize) -> Result<Imp, E> { Err(E) }
+        fn serialize_struct_variant(self, _: &'static str, _: u32, _: &'static str, _: usize) -> Result<Imp, E> { Err(E) }
+        fn collect_str<T: ?Sized + core::fmt::Display>(self, _: &T) -> Result<Self::Ok, E> { Err(E) }
+    }
+    pub struct Str<'a>(pub &'a str);
+    impl<'de, 'a> de::Deserializer<'de> for Str<'a> {
+        type Error = E;
+        fn is_human_readable(&self) -> bool { true }
+        fn deserialize_any<V: de::Visitor<'de>>(self, v: V) -> Result<V::Value, E> { v.visit_str(self.0) }
+        serde::forward_to_deserialize_any! {
+            bool i8 i16 i32 i64 i128 u8 u16 u32 u64 u128 f32 f64 char str string bytes byte_buf option unit unit_struct
+            newtype_struct seq tuple tuple_struct map struct enum identifier ignored_any
+        }
+    }
 }
 fn serde_bin<const B: usize, const L: usize>() {
     use serde::{Deserialize, Serialize};
@@ -693,6 +744,47 @@ fn serde_bin<const B: usize, const L: usize>() {
             }
         }
         Err(_) => assert!(false, "serde binary: calls serialize_bytes and nothing else"),
+    }
+}
+
+/// serde human-readable form on ONE CONCRETE value (bounded stand-in: `format!("{self:#x}")` with a symbolic value does not
+/// finish): the text handed to `serialize_str` is exactly `want` (the 0x-prefixed minimal hex quantity, "0x0" for zero)
+/// and `visit_str` of that text returns the value.
+fn serde_human<const B: usize, const L: usize>(v: u128, want: &str) {
+    use serde::{Deserialize, Serialize};
+    let mut limbs = [0u64; L];
+    if L > 0 { limbs[0] = v as u64; }
+    if L > 1 { limbs[1] = (v >> 64) as u64; }
+    let x = Uint::<B, L>::from_limbs(limbs);
+    match x.serialize(mock::RecStr) {
+        Ok((got, n)) => {
+            let w = want.as_bytes();
+            assert!(n == w.len(), "serde human-readable: length of the minimal 0x-prefixed hex quantity");
+            let mut i = 0;
+            while i < w.len() { assert!(got[i] == w[i], "serde human-readable: characters of the minimal 0x-prefixed hex quantity"); i += 1; }
+            match okf(Uint::<B, L>::deserialize(mock::Str(want))) {
+                Some(y) => assert!(ueq(x, y), "serde human-readable: round trip"),
+                None => assert!(false, "serde human-readable: round trip decodes"),
+            }
+        }
+        Err(_) => assert!(false, "serde human-readable: calls serialize_str and nothing else"),
+    }
+}
+/// `Bits` uses the full-width form: "0x" followed by exactly 2*BYTES lower-case hex digits
+fn serde_human_bits<const B: usize, const L: usize>(v: u128, want: &str) {
+    use serde::Serialize;
+    let mut limbs = [0u64; L];
+    if L > 0 { limbs[0] = v as u64; }
+    if L > 1 { limbs[1] = (v >> 64) as u64; }
+    let x = ruint::Bits::<B, L>::from(Uint::<B, L>::from_limbs(limbs));
+    match x.serialize(mock::RecStr) {
+        Ok((got, n)) => {
+            let w = want.as_bytes();
+            assert!(n == w.len(), "serde human-readable (Bits): length 2 + 2*BYTES");
+            let mut i = 0;
+            while i < w.len() { assert!(got[i] == w[i], "serde human-readable (Bits): characters"); i += 1; }
+        }
+        Err(_) => assert!(false, "serde human-readable (Bits): calls serialize_str and nothing else"),
     }
 }
 
@@ -874,6 +966,14 @@ crate::harnesses! {
     #[cfg_attr(kani, kani::unwind(12))] #[cfg_attr(kani, kani::stub(alloc::fmt::format, fmt_stub))] fn c16_serde_bin_w64() { serde_bin::<64, 1>() }
     #[cfg_attr(kani, kani::unwind(13))] #[cfg_attr(kani, kani::stub(alloc::fmt::format, fmt_stub))] fn c16_serde_bin_w65() { serde_bin::<65, 2>() }
     #[cfg_attr(kani, kani::unwind(20))] #[cfg_attr(kani, kani::stub(alloc::fmt::format, fmt_stub))] fn c16_serde_bin_w128() { serde_bin::<128, 2>() }
+    #[cfg_attr(kani, kani::unwind(42))] fn c16_serde_human_zero_w0() { serde_human::<0, 0>(0, "0x0") }
+    #[cfg_attr(kani, kani::unwind(42))] fn c16_serde_human_zero_w65() { serde_human::<65, 2>(0, "0x0") }
+    #[cfg_attr(kani, kani::unwind(42))] fn c16_serde_human_one_w8() { serde_human::<8, 1>(1, "0x1") }
+    #[cfg_attr(kani, kani::unwind(42))] fn c16_serde_human_ab_w8() { serde_human::<8, 1>(0xab, "0xab") }
+    #[cfg_attr(kani, kani::unwind(42))] fn c16_serde_human_small_w128() { serde_human::<128, 2>(0x10, "0x10") }
+    #[cfg_attr(kani, kani::unwind(42))] fn c16_serde_human_2p64_w65() { serde_human::<65, 2>(1u128 << 64, "0x10000000000000000") }
+    #[cfg_attr(kani, kani::unwind(42))] fn c16_serde_human_bits_w16() { serde_human_bits::<16, 1>(0xab, "0x00ab") }
+    #[cfg_attr(kani, kani::unwind(42))] fn c16_serde_human_bits_w9() { serde_human_bits::<9, 1>(0x1, "0x0001") }
     #[cfg_attr(kani, kani::unwind(12))] fn c16_bytemuck_w64() { bytemuck_body::<64, 1>() }
     #[cfg_attr(kani, kani::unwind(20))] fn c16_bytemuck_w128() { bytemuck_body::<128, 2>() }
     #[cfg_attr(kani, kani::unwind(4))] fn c16_bytemuck_zeroed_w7() { bytemuck_zeroed::<7, 1>() }
